@@ -225,6 +225,27 @@ CHECKS.update({
         "DESIGN.md section 3, C06"),
 })
 
+CHECKS.update({
+    "C08": (
+        "model_checking",
+        "exhaustive enumeration of segment ASTs rendered by an independent "
+        "writer, parsed by the real parser, compared field by field; all "
+        "pairs for ==",
+        "Every AST of 1..k segments over the complete segment grammar (keys / "
+        "terms / parameters over letters, digits and every escapable special "
+        "character, all 9 operators, inversion, 7 keywords with 0-2 "
+        "parameters, slices, anchors, collectors with + - &) is written in "
+        "dot and slash notation with backslash escapes and with quote "
+        "demarcation, parsed, and must give back exactly the AST; the "
+        "canonical string re-parses to it in either notation and is a fixed "
+        "point; == agrees with AST equality on all pairs; append then pop "
+        "restores the path.",
+        "quote demarcation is used only where README documents it (text "
+        "without brackets, parentheses, quotes or backslashes); text with * "
+        "or a leading & / operator character is outside the escapable set",
+        "DESIGN.md section 3, C08"),
+})
+
 NOT_YET = {
 }
 
